@@ -39,10 +39,21 @@ func resetScenario(c *caseOut, h *History, cfg config.Blockchain, sr *subjectRun
 	b0 := sr.st.NumBatches()
 	err = safeReset(bc, target)
 	bs := sr.st.Batches()
-	c.line(fmt.Sprintf("reset %d %d %d", target, cur, hdr), errObs(err))
+	// the tie line says whether the reset ran its stage machine (wrote batches); a failure after the last
+	// batch (node construction) is the oracle's business
+	started := err
+	if len(bs) > b0 {
+		started = nil
+	}
+	c.line(fmt.Sprintf("reset %d %d %d", target, cur, hdr), errObs(started))
 	if err != nil {
+		if len(bs) == b0 {
+			// refused before anything was written: the node is unchanged, nothing to resume
+			c.cnt.count("reset:refused-" + slug(err))
+			return
+		}
 		c.cnt.count("reset:error")
-		c.fail("reset-error", "Reset(%d) at height %d failed: %v", target, cur, err)
+		c.fail("reset-error-"+slug(err), "Reset(%d) at height %d (RemoveUntraceableBlocks=%v) wrote %d batches and then failed: %v", target, cur, cfg.RemoveUntraceableBlocks, len(bs)-b0, err)
 		return
 	}
 	c.cnt.count("reset:runs")
